@@ -19,7 +19,7 @@ impl Check for C04 {
         900
     }
     fn cases(&self, tier: Tier) -> u64 {
-        tier.pick(10_000, 600_000)
+        tier.pick(60_000, 2_000_000)
     }
     fn run_case(&self, src: &mut Src, obs: &mut Obs) -> Result<(), Fail> {
         if src.chance(1, 5) {
